@@ -58,7 +58,8 @@ func runC02(c *core.Ctx) {
 	}
 
 	// ---- Part A: pure strategies, pairwise + reference, with single faults
-	docsWithin(c, s, c02Docs(), k, 0, func(d *world.Doc, dist int) bool {
+	var partA func(d *world.Doc, dist int, pairwiseOnly bool) bool
+	partA = func(d *world.Doc, dist int, pairwiseOnly bool) bool {
 		if c.Expired() {
 			completed = false
 			return false
@@ -81,18 +82,27 @@ func runC02(c *core.Ctx) {
 					continue
 				}
 				plans := [][]string{nil}
-				if !ex0.Rejected && ex0.Features["merged-key"] == 0 && dist == 0 {
+				var planKinds []world.FaultKind
+				planKinds = append(planKinds, world.NoFault)
+				if !ex0.Rejected && ex0.Features["merged-key"] == 0 && dist == 0 && !pairwiseOnly {
 					for _, ck := range expectedCalls(s, gfs, ex0, world.FS) {
-						plans = append(plans, []string{ck})
+						// a plain failure, and a resolver that hands back its value together with an error
+						for _, fk := range []world.FaultKind{world.FaultErr, world.FaultValErr} {
+							plans = append(plans, []string{ck})
+							planKinds = append(planKinds, fk)
+						}
 					}
 				}
-				for _, plan := range plans {
+				for pi, plan := range plans {
 					faults := map[world.CallKey]world.FaultKind{}
 					for _, ck := range plan {
 						var id int
 						dot := strings.IndexByte(ck, '.')
 						fmt.Sscanf(ck[:dot], "%d", &id)
-						faults[world.CallKey{Node: id, Field: ck[dot+1:]}] = world.FaultErr
+						faults[world.CallKey{Node: id, Field: ck[dot+1:]}] = planKinds[pi]
+					}
+					if planKinds[pi] == world.FaultValErr {
+						plan = []string{plan[0] + ":value+error"}
 					}
 					if len(plan) > 0 {
 						c.Nontrivial()
@@ -117,7 +127,13 @@ func runC02(c *core.Ctx) {
 						run.Faults = faults
 						o := world.Observe(root, run, text, op, nil)
 						results = append(results, res{nc.Name, o, nc.Cfg.Strat == world.FS})
-						if kd, msg := compareExpect(s, g, ex, o, nc.Cfg.Strat, false); kd != "" {
+						if pairwiseOnly {
+							c.Outcome("A-defective-request")
+						} else if planKinds[pi] == world.FaultValErr {
+							// what the data holds where a resolver returned a value AND an error is not stated: only the
+							// strategies are compared with each other
+							c.Outcome("A-value+error")
+						} else if kd, msg := compareExpect(s, g, ex, o, nc.Cfg.Strat, false); kd != "" {
 							model := "none"
 							if kd == "err-diff" && world.SameStrings(stripFragSegments(o.ErrPaths), ex.ErrPaths) {
 								model = "fragment-path-segment"
@@ -151,7 +167,23 @@ func runC02(c *core.Ctx) {
 		}
 		sample(c, func() interface{} { return map[string]interface{}{"part": "A", "query": text} })
 		return true
-	})
+	}
+	docsWithin(c, s, c02Docs(), k, 0, func(d *world.Doc, dist int) bool { return partA(d, dist, false) })
+	// requests with one defect (the catalogue of C10, injected at the root selection set): whatever the response is, it
+	// is the same under every strategy (data and error paths); no reference is consulted
+	for _, d := range c02Docs() {
+		for _, df := range c10Defects() {
+			if df.Needs != "" && df.Needs != "echo" && df.Needs != "i" {
+				continue
+			}
+			nd := d.Clone()
+			nd.Ops[0].Sels = append(nd.Ops[0].Sels, df.Make(s.Type(s.Query)))
+			c.Nontrivial()
+			if !partA(nd, 0, true) {
+				break
+			}
+		}
+	}
 
 	// ---- Part B: every per-node assignment, both mixing modes
 	nodes := graphs[0].Nodes
